@@ -19,33 +19,33 @@ COMMON_ASSUMPTIONS = [
 
 PROPS = {
     'C07': {
-        'level': 'proof',
+        'level': 'model_checking',
         'pkgs': ALLV,
         'text': 'Set/Get/== on every reachable object and every (abbreviation, value) string pair of any length: inductive step over the API-level reachability invariant, decided by SMT over the SSA of the real Get/Set/validate',
-        'bounds': 'none: objects are all 2^32/2^48/2^72 raw states constrained by the reachability invariant; strings have arbitrary length (first 8 bytes explicit, longer strings only compared)',
+        'bounds': 'the whole finite domain, decided by the solver without truncation: objects are all 2^32/2^48/2^72 raw states constrained by the reachability invariant; strings have arbitrary length (first 8 bytes explicit, longer strings only compared)',
         'solvers': {'quick': ['z3'], 'thorough': ['z3', 'z3new', 'cvc5']},
     },
     'C09': {
-        'level': 'proof',
+        'level': 'model_checking',
         'pkgs': ALLV,
         'text': 'Get/Set accept exactly the specification metric abbreviations and values for strings of any length on every reachable object; reachable objects are well formed',
-        'bounds': 'none for Get/Set (arbitrary-length strings, all reachable objects)',
+        'bounds': 'the whole finite domain for Get/Set (arbitrary-length strings, all reachable objects)',
         'solvers': {'quick': ['z3'], 'thorough': ['z3', 'z3new', 'cvc5']},
     },
 }
 
 PROPS['C16'] = {
-    'level': 'proof',
+    'level': 'model_checking',
     'pkgs': ['h40'],
     'text': 'Nomenclature() equals CVSS-B[T][E] computed from the Get values of E and of the 14 environmental metrics, on every reachable v4.0 object',
-    'bounds': 'none: all 2^72 raw states constrained by the reachability invariant (267,483,013,447,680,000 objects)',
+    'bounds': 'the whole finite domain, decided by the solver without truncation: all 2^72 raw states constrained by the reachability invariant (267,483,013,447,680,000 objects)',
     'solvers': {'quick': ['z3'], 'thorough': ['z3', 'z3new', 'cvc5']},
 }
 PROPS['C15'] = {
-    'level': 'proof',
+    'level': 'model_checking',
     'pkgs': ['hcross'],
     'text': 'Rating of the 3.0, 3.1 and 4.0 packages equals the specification scale and the three agree, for every float64 bit pattern except NaN (symbolic float64, IEEE comparisons in the solver)',
-    'bounds': 'none: the score is one symbolic (_ FloatingPoint 11 53) value',
+    'bounds': 'the whole finite domain, decided by the solver without truncation: the score is one symbolic (_ FloatingPoint 11 53) value',
     'solvers': {'quick': ['z3'], 'thorough': ['z3', 'z3new', 'cvc5']},
 }
 FP_NOTE = ('Floating point is decided by exhaustive case analysis with solver-evaluated IEEE arithmetic: the solver enumerates the tuples of the '
@@ -53,48 +53,48 @@ FP_NOTE = ('Floating point is decided by exhaustive case analysis with solver-ev
            'per cube the FP expression over literal operands is folded by z3\'s rewriter and cross-checked by a Python IEEE-754 evaluation; failing cubes are '
            'confirmed by a solver query for a concrete object and replayed natively.')
 PROPS['C03'] = {
-    'level': 'proof',
+    'level': 'model_checking',
     'pkgs': ['h30', 'h31'],
     'text': 'v3.0/v3.1 BaseScore, TemporalScore, EnvironmentalScore equal the exact-rational evaluation of the FIRST equations (and Impact/Exploitability within 1e-9) on every reachable object. ' + FP_NOTE,
-    'bounds': 'none: complete over the 573,308,928,000 objects of each version (all frontier cubes enumerated, coverage certified by the solver)',
+    'bounds': 'the whole finite domain, decided by the solver without truncation: complete over the 573,308,928,000 objects of each version (all frontier cubes enumerated, coverage certified by the solver)',
     'solvers': {'quick': ['z3'], 'thorough': ['z3']},
     'per_harness': {'.': {'handler': 'fp_tabulate'}},
     'technique': 'SMT-driven cube-and-conquer over the SSA of the real scoring code: solver-enumerated frontier cubes (AllSAT + coverage certificate), solver-folded floating point per cube, exact-rational specification oracle',
     'assumptions': ['oracle: /verif/spec/cvss_spec.py, exact rational transcription of the FIRST v3.0/v3.1 equations'],
 }
 PROPS['C05'] = {
-    'level': 'proof',
+    'level': 'model_checking',
     'pkgs': ['h20'],
     'text': 'v2.0 BaseScore, TemporalScore, EnvironmentalScore equal the exact-rational evaluation of the guide equations rounded to one decimal (either neighbour on exact ties), Impact/Exploitability within 1e-9, on every reachable object. ' + FP_NOTE,
-    'bounds': 'none: complete over the 139,968,000 v2.0 objects (all frontier cubes enumerated, coverage certified by the solver)',
+    'bounds': 'the whole finite domain, decided by the solver without truncation: complete over the 139,968,000 v2.0 objects (all frontier cubes enumerated, coverage certified by the solver)',
     'solvers': {'quick': ['z3'], 'thorough': ['z3']},
     'per_harness': {'.': {'handler': 'fp_tabulate'}},
     'technique': PROPS['C03']['technique'],
     'assumptions': ['oracle: /verif/spec/cvss_spec.py, exact rational transcription of the CVSS v2.0 guide equations (section 3.2); ties of round_to_1_decimal accept either neighbour'],
 }
 PROPS['C10'] = {
-    'level': 'proof',
+    'level': 'model_checking',
     'pkgs': ['h30', 'h31'],
     'text': 'v3 BaseScore / TemporalScore / EnvironmentalScore are functions of the effective metric values only (Modified metric if defined else base metric; X as the default): 2-safety decided over the complete solver-enumerated cube table (same effective class => same folded score), violations confirmed by a solver query for two concrete objects and replayed natively. ' + FP_NOTE,
-    'bounds': 'none: every pair of the 573,308,928,000 objects per version with equal effective values (v4.0 part: see C04/C10 v4 harness when present)',
+    'bounds': 'the whole finite domain, decided by the solver without truncation: every pair of the 573,308,928,000 objects per version with equal effective values (v4.0 part: see C04/C10 v4 harness when present)',
     'solvers': {'quick': ['z3'], 'thorough': ['z3']},
     'per_harness': {'.': {'handler': 'fp_tabulate'}},
     'technique': PROPS['C03']['technique'] + '; relational (2-safety) check over the cube table',
 }
 PROPS['C11'] = {
-    'level': 'proof',
+    'level': 'model_checking',
     'pkgs': ['h20', 'h30', 'h31'],
     'text': 'every scoring method returns, without panicking, a finite float64 equal to k/10 for an integer k in range, accepted by Rating: decided per frontier cube on the solver-folded value, panic arms discharged by SMT. ' + FP_NOTE,
-    'bounds': 'none: all reachable objects of v2.0, v3.0, v3.1 (v4.0 when its harness is present)',
+    'bounds': 'the whole finite domain, decided by the solver without truncation: all reachable objects of v2.0, v3.0, v3.1 (v4.0 when its harness is present)',
     'solvers': {'quick': ['z3'], 'thorough': ['z3']},
     'per_harness': {'.': {'handler': 'fp_tabulate'}},
     'technique': PROPS['C03']['technique'],
 }
 PROPS['C12'] = {
-    'level': 'proof',
+    'level': 'model_checking',
     'pkgs': ['h20', 'h30', 'h31'],
     'text': 'one severity step up in one (effective) metric never lowers the score: decided over the complete solver-enumerated cube table of the real scoring code (per staging level for the environmental score), violations confirmed by a solver query for two concrete objects and replayed natively. ' + FP_NOTE,
-    'bounds': 'none: all effective classes of v3.1 (3 scores), v2.0 and v3.0 (base, temporal)',
+    'bounds': 'the whole finite domain, decided by the solver without truncation: all effective classes of v3.1 (3 scores), v2.0 and v3.0 (base, temporal)',
     'solvers': {'quick': ['z3'], 'thorough': ['z3']},
     'per_harness': {'.': {'handler': 'fp_tabulate'}},
     'technique': PROPS['C03']['technique'] + '; relational (2-safety) check over the cube table',
@@ -131,10 +131,10 @@ PROPS['C06'] = {
 
 
 PROPS['C04'] = {
-    'level': 'proof',
+    'level': 'model_checking',
     'pkgs': ['h40'],
     'text': 'v4.0 Score equals the specification MacroVector algorithm (exact rationals, round half up) on every reachable object, and depends on the object only through the effective values (v4.0 part of C10): the real Score/macroVector/lookupMV/severityDistance code is executed symbolically; its integer->float frontier (MacroVector levels, severity-distance sums, shortcut) is tabulated and folded by the solver; the joint table (frontier tuple, effective severity levels of the 15 scoring metrics) is derived from solver-enumerated bit-field groups by exact integer evaluation over their product; every one of the 15,116,544 effective classes is compared with the exact oracle. ' + FP_NOTE,
-    'bounds': 'none: complete over the 267,483,013,447,680,000 v4.0 objects (15,116,544 effective classes x defined/not-defined variants; coverage of every bit-field group certified by the solver)',
+    'bounds': 'the whole finite domain, decided by the solver without truncation: complete over the 267,483,013,447,680,000 v4.0 objects (15,116,544 effective classes x defined/not-defined variants; coverage of every bit-field group certified by the solver)',
     'solvers': {'quick': ['z3'], 'thorough': ['z3']},
     'per_harness': {'.': {'handler': 'fp_oracle'}},
     'technique': PROPS['C03']['technique'] + '; integer part evaluated exactly over the product of solver-enumerated bit-field groups',
